@@ -24,6 +24,7 @@ class SdkRun:
         self.conn = rig.VConnection("alice", max_qubits=max_qubits, nv=nv, **(conn_kwargs or {}))
         self.conn.ex.meas_script = list(meas_script)
         self.meas = list(meas_script)
+        self.nv = nv
         self.arrays: Dict[str, Any] = {}
         self.qubits: Dict[str, Qubit] = {}
         self.regfs: Dict[str, RegFuture] = {}
@@ -123,7 +124,12 @@ class SdkRun:
             return [{"s": "gate", "g": g, "vids": [q.qubit_id for q in qs], "imm": []}]
         if k == "rot":
             q = self.qubits[s["q"]]
-            getattr(q, {"rot_x": "rot_X", "rot_y": "rot_Y", "rot_z": "rot_Z"}[s["g"]])(n=s["n"], d=s["d"])
+            n = s["n"]
+            if isinstance(n, str):          # a template operand: "t<j>"
+                from netqasm.lang.operand import Template
+                getattr(q, {"rot_x": "rot_X", "rot_y": "rot_Y", "rot_z": "rot_Z"}[s["g"]])(n=Template(n), d=s["d"])
+                return [{"s": "gate", "g": s["g"], "vids": [q.qubit_id], "imm": [-int(n[1:]), s["d"]]}]
+            getattr(q, {"rot_x": "rot_X", "rot_y": "rot_Y", "rot_z": "rot_Z"}[s["g"]])(n=n, d=s["d"])
             return [{"s": "gate", "g": s["g"], "vids": [q.qubit_id], "imm": [s["n"], s["d"]]}]
         if k == "free":
             q = self.qubits[s["q"]]
@@ -249,6 +255,23 @@ class SdkRun:
                 self.obs[-1]["exc"] = str(ex)[:200]
                 self.faulted = True
             self.items.append({"s": "flush"})
+        elif k == "compile":
+            sub = self.conn.compile()
+            self.compiled = getattr(self, "compiled", [])
+            self.compiled.append(sub)
+            self.items.append({"s": "compile"})
+        elif k == "commit":
+            sub = self.compiled[item["obj"] - 1]
+            vals = item["vals"]
+            try:
+                sub.instantiate(self.conn.app_id, {f"t{j + 1}": v for j, v in enumerate(vals)})
+                self.conn.commit_subroutine(sub)
+                self.obs.append(self.snapshot_flush(False))
+            except (rig.ControllerFault, rig.ScriptExhausted) as ex:
+                self.obs.append(self.snapshot_flush(True))
+                self.obs[-1]["exc"] = str(ex)[:200]
+                self.faulted = True
+            self.items.append({"s": "commit", "obj": item["obj"], "vals": vals or [0]})
         elif k == "read":
             loc = item["loc"]
             if loc["k"] == "arr":
@@ -282,7 +305,7 @@ class SdkRun:
         for o in self.obs:
             if o["kind"] == "flush":
                 o["arrs"] = o["arrs"] + [[] for _ in range(len(self.addrs or [0]) - len(o["arrs"]))]
-        return {"items": self.items, "obs": self.obs, "addrs": self.addrs or [0], "handles": sorted(self.handle_ids.values()) or [0],
+        return {"cmpglog": not self.nv, "items": self.items, "obs": self.obs, "addrs": self.addrs or [0], "handles": sorted(self.handle_ids.values()) or [0],
                 "meas": self.meas, "err": self.error or ""}
 
 
